@@ -153,13 +153,18 @@ def run(ctx):
                                                   coq_word(r["tree"]), coq_exp(r), coq_spec(r),
                                                   "(%s,%s,%s,%s)" % tuple("true" if k in (r.get("feat") or "") else "false" for k in
                                                                           ("skippedClose", "nestedComma", "seqGuard", "failedSeqNested"))))
-        text = CASE_HDR + "Definition cases := %s.\nDefinition M := Eval vm_compute in mism 0 cases.\nPrint M.\n" % coq_list(items)
+        text = (CASE_HDR.replace("Expand.Braces.", "Expand.Braces Proofs.BracesSimProofs.")
+                + "Definition cases := %s.\nDefinition M := Eval vm_compute in mism 0 cases.\nPrint M.\n"
+                  "Definition NR := Eval vm_compute in length (filter (fun c => regular (fst (fst (fst (fst (fst c)))))) cases).\nPrint NR.\n") % coq_list(items)
         ok, out = ctx.coq_cases("c16_%d_%d_%d" % (ctx.seed, os.getpid(), sh), text, timeout=1800)
         m = re.search(r"M\s*=\s*(\[.*?\])\s*:", out, re.S)
         if not ok or not m:
             ctx.broken.append(("correspondence:code-eval", "coqc on generated cases failed: " + out[-800:]))
             return
         total += len(part)
+        mr = re.search(r"NR\s*=\s*(\d+)", out)
+        if mr:
+            ctx.extra["sampled_words_in_proved_regular_scope"] = ctx.extra.get("sampled_words_in_proved_regular_scope", 0) + int(mr.group(1))
         for (i, k) in re.findall(r"\((\d+)%nat,\s*(\d+)\)", m.group(1)) or re.findall(r"\((\d+),\s*(\d+)\)", m.group(1)):
             r = part[int(i)]
             mism.append({"word": bytes.fromhex(r["word"]).decode("latin1"), "differs": int(k),
